@@ -149,6 +149,12 @@ def run_op(E, op, st):
     elif k == 'tag_T': E.T[op[1]].tag = op[2]
     elif k == 'delete_T': E.T[op[1]].delete()
     elif k == 'create_U': E.U(n=op[1])
+    # per-object flush: Entity.flush() saves ONE object outside SessionCache.flush (which would set cache.immediate itself)
+    elif k == 'oflush_create': E.T(x=op[1]).flush()
+    elif k == 'oflush_update':
+        t = E.T[op[1]]; t.x = op[2]; t.flush()
+    elif k == 'oflush_delete':
+        t = E.T[op[1]]; t.delete(); t.flush()
     elif k == 'm2m_add': E.T[op[1]].us.add(E.U[op[2]])
     elif k == 'm2m_remove': E.T[op[1]].us.remove(E.U[op[2]])
     elif k == 'create_H': E.H(v=op[1])
@@ -199,6 +205,23 @@ FIXED_PROGRAMS = [
     ('unique_clash', 'optimistic', [['create_T', 49], ['create_U', 1]]),
     ('bulk_delete', 'optimistic', [['create_T', 3], ['bulk_delete', 3], ['raw_update', 2, 21]]),
     ('for_update', 'optimistic', [['for_update', 1], ['update_T', 1, 50], ['raw_insert', 14, 1]]),
+    ('oflush_delete', 'optimistic', [['oflush_delete', 3], ['create_T', 60], ['raw_insert', 30, 1]]),
+    ('oflush_update', 'optimistic', [['oflush_update', 1, 61], ['delete_T', 3]]),
+    ('oflush_create', 'optimistic', [['oflush_create', 62], ['update_T', 2, 63]]),
+    ('oflush_delete_immediate', 'immediate', [['oflush_delete', 3], ['create_T', 60], ['raw_insert', 30, 1]]),
+    ('oflush_update_immediate', 'immediate', [['oflush_update', 1, 61], ['delete_T', 3]]),
+    ('oflush_create_immediate', 'immediate', [['oflush_create', 62], ['update_T', 2, 63]]),
+    ('oflush_delete_serializable', 'serializable', [['oflush_delete', 3], ['create_T', 60], ['raw_insert', 30, 1]]),
+    ('oflush_update_serializable', 'serializable', [['oflush_update', 1, 61], ['delete_T', 3]]),
+    ('oflush_create_serializable', 'serializable', [['oflush_create', 62], ['update_T', 2, 63]]),
+    ('oflush_delete_pessimistic', 'pessimistic', [['oflush_delete', 3], ['create_T', 60], ['raw_insert', 30, 1]]),
+    ('oflush_update_pessimistic', 'pessimistic', [['oflush_update', 1, 61], ['delete_T', 3]]),
+    ('oflush_create_pessimistic', 'pessimistic', [['oflush_create', 62], ['update_T', 2, 63]]),
+    ('oflush_delete_linked', 'optimistic', [['select'], ['oflush_delete', 2], ['m2m_add', 1, 2]]),
+    ('oflush_delete_raise', 'optimistic', [['oflush_delete', 3], ['raise']]),
+    ('oflush_update_rollback', 'optimistic', [['oflush_update', 1, 64], ['rollback'], ['oflush_create', 65]]),
+    ('oflush_delete_only', 'optimistic', [['oflush_delete', 3]]),
+    ('oflush_all', 'optimistic', [['oflush_delete', 3], ['oflush_update', 1, 66], ['oflush_create', 67], ['commit'], ['oflush_delete', 1]]),
     ('read_only', 'optimistic', [['select'], ['raw_select']]),
     ('empty', 'immediate', []),
 ]
@@ -212,7 +235,13 @@ def random_program(rng):
     n = rng.randint(2, 8)
     for _ in range(n):
         r = rng.random()
-        if r < 0.16:
+        if rng.random() < 0.12:
+            q = rng.random()
+            if q < 0.34: prog.append(['oflush_create', rng.randint(0, 9)]); ts.append(next_t); next_t += 1
+            elif q < 0.67 and ts: prog.append(['oflush_update', rng.choice(ts), rng.randint(200, 299)])
+            elif ts:
+                t = rng.choice(ts); prog.append(['oflush_delete', t]); ts.remove(t); links = {l for l in links if l[0] != t}
+        elif r < 0.16:
             prog.append(['create_T', rng.randint(0, 9)]); ts.append(next_t); next_t += 1
         elif r < 0.30 and ts:
             prog.append(['update_T', rng.choice(ts), rng.randint(50, 99)])
@@ -589,7 +618,7 @@ def pg_setup():
     return E, rec
 
 
-PG_OPS = ['create_T', 'create_U', 'raw_insert', 'raw_update', 'raw_delete', 'db_insert', 'select', 'raw_select', 'flush',
+PG_OPS = ['create_T', 'oflush_create', 'create_U', 'raw_insert', 'raw_update', 'raw_delete', 'db_insert', 'select', 'raw_select', 'flush',
           'commit', 'db_commit', 'rollback']
 
 
@@ -597,7 +626,7 @@ def pg_program(rng):
     prog = []
     for _ in range(rng.randint(1, 6)):
         k = rng.choice(PG_OPS)
-        if k == 'create_T': prog.append([k, rng.randint(0, 9)])
+        if k in ('create_T', 'oflush_create'): prog.append([k, rng.randint(0, 9)])
         elif k == 'create_U': prog.append([k, rng.randint(10, 10 ** 6)])
         elif k in ('raw_insert', 'raw_update', 'db_insert'): prog.append([k, rng.randint(1, 99), 1])
         elif k == 'raw_delete': prog.append([k, 1])
@@ -776,8 +805,8 @@ def run(ctx):
         ponyutil.rmtree(workdir)
 
 
-QUICK_FULL_FAULTS = ('raw', 'm2m', 'commit_mid', 'hooks')      # every call index, quick tier too
-QUICK_FULL_KILLS = ('commit_mid',)
+QUICK_FULL_FAULTS = ('raw', 'm2m', 'commit_mid', 'hooks', 'oflush_delete', 'oflush_update', 'oflush_create')      # every call index, quick tier too
+QUICK_FULL_KILLS = ('commit_mid', 'oflush_delete')
 
 
 def _run(ctx, workdir):
